@@ -189,13 +189,13 @@ class History:
 def gen_history(rng, sim, hid, kind, nops):
     h = History(hid, kind)
     base = IMSI0 + hid * 10
-    nsub = 1 if kind in ("single", "split", "huge", "burst") else 8 if kind == "lenwalk" else 2
+    nsub = 1 if kind in ("single", "compliant", "split", "huge", "burst") else 8 if kind == "lenwalk" else 2
     rgs = [1] if kind in ("single", "split", "huge", "burst", "lenwalk") else rng.choice([[1], [1, 2]])
     for s in range(nsub):
         supi = base + s
         h.supis.append(supi)
         for rg in rgs:
-            if kind == "single":
+            if kind in ("single", "compliant"):
                 quota = rng.choice([0, 1, 30, 99, 150, 250, 1000])
             else:
                 quota = rng.choice([0, 150, 1000, 100000, 100000])
@@ -401,11 +401,12 @@ def gen_history(rng, sim, hid, kind, nops):
             o = send({"kind": "update", "ref": s["ref"], "req": req})
             record_grants(s, o)
             continue
-        if not live or r < (0.5 if kind == "names" else 0.12):
+        if not live or (r < (0.5 if kind == "names" else 0.12) and kind != "compliant"):
             do_create(rng.choice(h.supis), consumer=(rng.choice(["a1", "a", "a-1", "1", "", "-", "a1-", "smf-12", "12"]) if kind == "names" else None))
         elif r < 0.70:
             s = rng.choice(live)
-            compliant = rng.random() < (0.95 if kind == "single" else 0.85)
+            # kind "compliant": one session at a time, every report within the last grant (the domain of C06_history)
+            compliant = kind == "compliant" or rng.random() < (0.95 if kind == "single" else 0.85)
             us = [usage_for(s, rg, compliant, rng) for rg in rng.sample(rgs, rng.choice([1, len(rgs)]))]
             trig = rng.choice([[], [], [], [0], [1], [0, 0]])
             req = new_req(s["supi"], us, triggers=trig, cid=s["cid"], notify=(s["notify"] if rng.random() < 0.8 else -1))
@@ -498,12 +499,13 @@ def evaluate(ctx, hs, shards=8):
     return run_case_files(files, ctx.workdir, timeout=3000)
 
 
-def domain_count(ctx, hs):
-    """how many of the histories satisfy the hypotheses of C01_history (history_okb, evaluated in Coq)"""
+def domain_count(ctx, hs, fun="in_domain"):
+    """how many of the histories satisfy the hypotheses of C01_history (history_okb) / of C06_history
+    (in_domain_c06: non-negative start, history_okb, history_compliantb), evaluated in Coq"""
     fn = "DomCases.v"
     with open(os.path.join(ctx.workdir, fn), "w") as f:
         f.write(HEADER + "Definition cases : list hcase := [\n" + ";\n".join(history_to_coq(h) for h in hs) +
-                "\n].\nDefinition D := Eval vm_compute in in_domain cases.\nPrint D.\n")
+                "\n].\nDefinition D := Eval vm_compute in %s cases.\nPrint D.\n" % fun)
     rc, out = sh(["coqc", "-Q", COQ, "Verif", fn], cwd=ctx.workdir, timeout=1800)
     m = re.search(r"D = \((\d+)(?:%Z)?, (\d+)(?:%Z)?\)", re.sub(r"\s+", " ", out))
     return (int(m.group(1)), int(m.group(2))) if m else None
@@ -693,7 +695,7 @@ def monitor(h):
 SPEC = {
     # property: (Props file, correspondence codes that matter, plan quick, plan thorough)
     "C01": ("Charging/PropsC01.v", {2, 3, 4}, [("single", 14)] * 10 + [("multi", 16)] * 8 + [("createusage", 5)] * 2),
-    "C06": ("Charging/PropsC06.v", {2, 3, 4}, [("single", 16)] * 14 + [("multi", 14)] * 6),
+    "C06": ("Charging/PropsC06.v", {2, 3, 4}, [("single", 16)] * 8 + [("compliant", 16)] * 7 + [("multi", 14)] * 5),
     "C02": ("Charging/PropsC02.v", {5, 6, 8}, [("multi", 18)] * 12 + [("single", 10)] * 4 + [("split", 6)] * 2),
     "C03": ("Charging/PropsC03.v", {5, 8}, [("multi", 14)] * 8 + [("split", 10)] * 4 + [("huge", 2)] + [("lenwalk", 1)]),
     "C10": ("Charging/PropsC10.v", {1, 6, 9}, [("wrap32", 16)] + [("multi", 18)] * 10 + [("names", 14)] * 4 + [("burst", 4)] * 4 + [("wrap63", 8)]),
@@ -797,6 +799,7 @@ def run(ctx, replay=None):
         raise RuntimeError("case evaluation failed:\n" + "\n".join(logs)[:3000])
     byh = {h.hid: h for h in hs}
     dom = domain_count(ctx, hs) if (pid == "C01" and okc) else None
+    dom6 = domain_count(ctx, hs, "in_domain_c06") if (pid == "C06" and okc) else None
     corr = sorted(t for t in mism if t[2] in codes)
     mons = []
     for h in hs:
@@ -807,6 +810,8 @@ def run(ctx, replay=None):
     extra_cov = {}
     if dom:
         extra_cov["histories_in_domain_of_C01_history"] = {"satisfy_history_ok": dom[0], "of": dom[1]}
+    if dom6:
+        extra_cov["histories_in_domain_of_C06_history"] = {"satisfy_nonneg_start_history_ok_and_compliant": dom6[0], "of": dom6[1]}
     if pid == "C02":
         okb, logb = go_build(["tscorr"])
         if not okb:
